@@ -86,14 +86,17 @@ VARIABLES focus,     \* the addresses this behaviour talks about (fixed by Init)
           codes,     \* code ids that arrived through the layer
           seen,      \* history abstraction, see above
           blockSeq,  \* history abstraction, see above
+          held,      \* history abstraction: the last info / slot value WRITTEN through the layer, kept
+                     \* also after a wipe (destroy, create, replace) made it meaningless -- a cache may
+                     \* still hold it, so "written k, then created" and "created" are different histories
           conf,      \* the history respects the caller protocol
           hist       \* the history itself (hidden by the VIEW)
 data == <<acct, wiped, sto, codes>>
-vars == <<focus, acct, wiped, sto, codes, seen, blockSeq, conf, hist>>
+vars == <<focus, acct, wiped, sto, codes, seen, blockSeq, held, conf, hist>>
 \* The depth is part of the view so that the bounded search is exact: a state that can be reached
 \* at two depths is expanded at both (a parallel search may otherwise meet it first on the longer
 \* path and cut its successors short at the bound).
-View == <<focus, acct, wiped, sto, codes, seen, blockSeq, conf, Len(hist)>>
+View == <<focus, acct, wiped, sto, codes, seen, blockSeq, held, conf, Len(hist)>>
 
 \* ---- Lookup(D (+) committed, q): the single right answer of every query
 InfoOf(ac, a) == CASE ac[a].src = "D" -> DAcct(a)
@@ -139,13 +142,14 @@ Init == /\ focus \in Focus
         /\ codes = {}
         /\ seen = NoSeen
         /\ blockSeq = <<>>
+        /\ held = [i |-> [a \in Addrs |-> <<>>], s |-> [a \in Addrs |-> [k \in Slots |-> Unset]]]
         /\ conf = TRUE
         /\ hist = <<>>
 
 ---------------------------------------------------------------------------
 \* Queries: the data does not change; the answer is a function of the data alone.
 Query(op, ans, seen2, c) ==
-    /\ UNCHANGED <<focus, acct, wiped, sto, codes>>
+    /\ UNCHANGED <<focus, acct, wiped, sto, codes, held>>
     /\ seen' = seen2 /\ conf' = c
     /\ hist' = Append(hist, op)
     /\ Emit(op, ans, c)
@@ -199,8 +203,12 @@ Apply(cur, W) == [k \in Slots |->
 WithOld(a, W, fresh) == [i \in 1 .. Len(W) |-> <<W[i][1], IF fresh THEN 0 ELSE Val(a, W[i][1]), W[i][2]>>]
 AllUnset == [k \in Slots |-> Unset]
 
-Write(op, acct2, wiped2, sto2, codes2, c) ==
-    /\ acct' = acct2 /\ wiped' = wiped2 /\ sto' = sto2 /\ codes' = codes2
+\* held after writing slots W (and info i) at address a
+HeldS(a, W) == [held EXCEPT !.s[a] = Apply(held.s[a], W)]
+HeldIS(a, i, W) == [i |-> [held.i EXCEPT ![a] = InfoT(i)], s |-> [held.s EXCEPT ![a] = Apply(held.s[a], W)]]
+
+Write(op, acct2, wiped2, sto2, codes2, held2, c) ==
+    /\ acct' = acct2 /\ wiped' = wiped2 /\ sto' = sto2 /\ codes' = codes2 /\ held' = held2
     /\ UNCHANGED <<focus, seen, blockSeq>>
     /\ conf' = c
     /\ hist' = Append(hist, op)
@@ -228,31 +236,34 @@ Touch == \E a \in focus, bal \in (IF Rich THEN {0, 6} ELSE {6}), bump \in {0, 1}
     /\ Write([op |-> "touch", a |-> a, bal |-> e.new.bal, nonce |-> e.new.nonce, code |-> e.new.code,
               w |-> WithOld(a, W, FALSE)],
              [acct EXCEPT ![a] = e.acct], wiped, [sto EXCEPT ![a] = Apply(sto[a], W)], codes,
-             conf /\ Loaded(a))
+             HeldIS(a, e.new, W), conf /\ Loaded(a))
 
 \* CREATE/CREATE2/create transaction deployed at `a`.  Only where the EVM allows a creation
-\* (EIP-684: nonce 0 and no code).  Storage starts empty, then the constructor's writes.
+\* (EIP-684: nonce 0 and no code; State documents "EVM did necessary checks").  Existing storage
+\* is NOT an obstacle here (EIP-7610 is what has_storage is for, and its default answer is
+\* false): whatever the address held in D, was read through the layer or was written by earlier
+\* commits, after the creation the storage is exactly the constructor's writes.
 CreateInfos == IF Rich THEN {Acc(0, 1, NewCode), Acc(5, 1, 0)} ELSE {Acc(0, 1, NewCode)}
-Create == \E a \in focus, i \in CreateInfos, W \in (IF Rich THEN {<<>>, <<<<2, 4>>>>} ELSE {<<<<2, 4>>>>}) :
+Create == \E a \in focus, i \in CreateInfos, W \in (IF Rich THEN {<<>>, <<<<2, 4>>>>} ELSE {<<>>}) :
     /\ Info(a).nonce = 0 /\ Info(a).code = 0
     /\ Write([op |-> "create", a |-> a, bal |-> i.bal, nonce |-> i.nonce, code |-> i.code,
               w |-> WithOld(a, W, TRUE)],
              [acct EXCEPT ![a] = [src |-> "set", info |-> i]],
              [wiped EXCEPT ![a] = TRUE], [sto EXCEPT ![a] = Apply(AllUnset, W)],
              IF i.code = 0 THEN codes ELSE codes \cup {i.code},
-             conf /\ Loaded(a))
+             HeldIS(a, i, W), conf /\ Loaded(a))
 
 \* SELFDESTRUCT took effect at `a` (`cr`: the account had also been created in that transaction).
 SelfDestruct == \E a \in focus, cr \in (IF Rich THEN BOOLEAN ELSE {FALSE}) :
     Write([op |-> "selfdestruct", a |-> a, cr |-> cr],
           [acct EXCEPT ![a] = [src |-> "set", info |-> Absent]],
-          [wiped EXCEPT ![a] = TRUE], [sto EXCEPT ![a] = AllUnset], codes,
+          [wiped EXCEPT ![a] = TRUE], [sto EXCEPT ![a] = AllUnset], codes, held,
           conf /\ Loaded(a))
 
 \* The change set mentions `a` (with different info and a slot) but does not mark it touched:
 \* nothing may be written.
 Untouched == \E a \in focus :
-    Write([op |-> "untouched", a |-> a], acct, wiped, sto, codes, conf /\ Loaded(a))
+    Write([op |-> "untouched", a |-> a], acct, wiped, sto, codes, held, conf /\ Loaded(a))
 
 \* One change set with two accounts: `a` receives value, `b` is destroyed.
 Commit2 == \E a \in focus, b \in focus :
@@ -261,7 +272,7 @@ Commit2 == \E a \in focus, b \in focus :
        Write([op |-> "commit2", a |-> a, bal |-> e.new.bal, nonce |-> e.new.nonce, code |-> e.new.code, b |-> b],
              [acct EXCEPT ![a] = e.acct, ![b] = [src |-> "set", info |-> Absent]],
              [wiped EXCEPT ![b] = TRUE], [sto EXCEPT ![b] = AllUnset], codes,
-             conf /\ Loaded(a) /\ Loaded(b))
+             HeldIS(a, e.new, <<>>), conf /\ Loaded(a) /\ Loaded(b))
 
 \* CacheDB's direct writers.
 \* insert_account_info: the account has this info from now on; storage is not touched.  Inserting
@@ -269,11 +280,11 @@ Commit2 == \E a \in focus, b \in focus :
 InsertInfo == \E a \in focus, i \in (IF Rich THEN {Acc(8, 2, NewCode), Acc(0, 0, 0)} ELSE {Acc(8, 2, NewCode)}) :
     Write([op |-> "insert_info", a |-> a, bal |-> i.bal, nonce |-> i.nonce, code |-> i.code],
           [acct EXCEPT ![a] = IF IsEmptyInfo(i) THEN [src |-> "dust", info |-> Absent] ELSE [src |-> "set", info |-> i]],
-          wiped, sto, IF i.code = 0 THEN codes ELSE codes \cup {i.code}, conf)
+          wiped, sto, IF i.code = 0 THEN codes ELSE codes \cup {i.code}, HeldIS(a, i, <<>>), conf)
 
 InsertStorage == \E a \in focus, kv \in (IF Rich THEN {<<1, 9>>, <<1, 0>>, <<2, 4>>} ELSE {<<1, 0>>, <<2, 4>>}) :
     Write([op |-> "insert_storage", a |-> a, k |-> kv[1], v |-> kv[2]],
-          acct, wiped, [sto EXCEPT ![a][kv[1]] = kv[2]], codes, conf)
+          acct, wiped, [sto EXCEPT ![a][kv[1]] = kv[2]], codes, HeldS(a, <<kv>>), conf)
 
 \* replace_account_storage: the account's storage is exactly W from now on.  Giving storage to an
 \* address without account makes it an empty account with storage; with W empty nothing
@@ -281,7 +292,7 @@ InsertStorage == \E a \in focus, kv \in (IF Rich THEN {<<1, 9>>, <<1, 0>>, <<2, 
 ReplaceStorage == \E a \in focus, W \in (IF Rich THEN {<<>>, <<<<2, 4>>>>} ELSE {<<>>}) :
     Write([op |-> "replace_storage", a |-> a, w |-> W],
           IF Info(a).ex THEN acct ELSE [acct EXCEPT ![a] = [src |-> "dust", info |-> Absent]],
-          [wiped EXCEPT ![a] = TRUE], [sto EXCEPT ![a] = Apply(AllUnset, W)], codes, conf)
+          [wiped EXCEPT ![a] = TRUE], [sto EXCEPT ![a] = Apply(AllUnset, W)], codes, HeldS(a, W), conf)
 
 Next == /\ Len(hist) < MaxHist
         /\ \/ Basic \/ Storage \/ HasStorage \/ AccountCode \/ CodeByHash \/ BlockHash
